@@ -4,6 +4,7 @@ import (
 	"fmt"
 	"go/token"
 	"go/types"
+	"regexp"
 	"sort"
 	"strings"
 
@@ -514,6 +515,9 @@ func version13Atom(val bool) atomAssume {
 	}, vBool(val)}
 }
 
+// marshalFixedOfField: the descriptor of x.<field>.MarshalFixed(), whatever the receiver is called.
+var marshalFixedOfField = regexp.MustCompile(`\(\*pkg/protocol/handshake\.Random\)\.MarshalFixed\(&[\w.()*]+\.(\w+)\)`)
+
 func (c *Ctx) exporterSeedMirror(r *Report, fn *ssa.Function) {
 	calls := callsIn(fn, nameIs(pkgPRF+".PHash"))
 	if len(calls) != 1 {
@@ -528,7 +532,9 @@ func (c *Ctx) exporterSeedMirror(r *Report, fn *ssa.Function) {
 	var got []string
 	for _, role := range []bool{true, false} {
 		as := []atomAssume{{mLoad("dtls.State", "isClient"), vBool(role)}}
-		l, err := c.pathLayout(fn, as, call.Call.Args[1], call, 0)
+		var l []seg
+		var err *layoutErr
+		withAssume(as, func() { l, err = c.pathLayout(fn, as, call.Call.Args[1], call, 0) })
 		key := fmt.Sprintf("%s:isClient=%v", short(fn), role)
 		if err != nil {
 			r.Unk("exporter-seed", key, c.ipos(call), "seed layout not extractable: "+err.msg)
@@ -538,9 +544,7 @@ func (c *Ctx) exporterSeedMirror(r *Report, fn *ssa.Function) {
 		got = append(got, g)
 		// reduce the random descriptors to the State field they are marshalled from
 		norm := g
-		for _, f := range []string{"localRandom", "remoteRandom"} {
-			norm = strings.ReplaceAll(norm, "(*pkg/protocol/handshake.Random).MarshalFixed(&s."+f+")", f)
-		}
+		norm = marshalFixedOfField.ReplaceAllString(norm, "$1")
 		r.Check(norm == want[role], "exporter-seed", key, c.ipos(call), "seed = "+g, "exporter seed deviates from RFC 5705 4 (label + client_random + server_random): got ["+norm+"] want ["+want[role]+"]")
 	}
 	r.Extra["exporter_seed_layouts"] = got
@@ -1093,6 +1097,7 @@ func ruleExportCarriesReplayPosition(c *Ctx, r *Report) {
 	if reads {
 		installs := 0
 		marked := false
+		var marker *ssa.Function
 		for _, f := range c.Fns {
 			if !inModule(f) || len(f.Blocks) == 0 {
 				continue
@@ -1120,9 +1125,19 @@ func ruleExportCarriesReplayPosition(c *Ctx, r *Report) {
 					if cl, ok := in.(*ssa.Call); ok && instrReaches(store, cl) {
 						if callee := cl.Call.StaticCallee(); callee != nil && c.marksOwnRecord(callee) {
 							marked = true
+							marker = callee
 						}
 					}
 				}
+			}
+		}
+		if marker != nil {
+			why, decided := c.windowCoverage(marker)
+			switch {
+			case !decided:
+				r.Unk(rule, short(marker)+":window-restored-whole", c.pos(marker.Pos()), why)
+			default:
+				r.Check(why == "", rule, short(marker)+":window-restored-whole", c.pos(marker.Pos()), "the numbers marked run from the old edge of the window (position - window + 1, or 0) up to the exported position, without a gap", "the resumed connection does not mark the whole part of the replay window the exported position implies: "+why)
 			}
 		}
 		r.Check(installs > 0 && marked, rule, short(fn)+":receive-position-restored", c.pos(fn.Pos()), "the function that installs the resume state marks the exported receive position in the replay detector", "the receive position is exported but the resumed connection never marks it in its replay detector: a record delivered before the export is delivered again after the resume")
